@@ -211,6 +211,14 @@ func genLeader() {
 		}
 	}
 	m.strs("updaterUpdateShape", updShape, "Updater.Update: range expression and loop body minus logging")
+	m.strs("updaterUpdateBody", u.stmts(upd.Body), "top-level statements of Updater.Update")
+	m.strs("writeStatusesBody", u.stmts(u.fn("Updater", "writeStatuses").Body), "top-level statements of Updater.writeStatuses")
+	ws := u.fn("Updater", "writeStatuses")
+	wsResults := "-"
+	if ws.Type.Results != nil {
+		wsResults = u.text(ws.Type.Results)
+	}
+	m.str("writeStatusesResults", wsResults, "result list of Updater.writeStatuses (`-` = none)")
 
 	// --- internal/framework/runnables -----------------------------------------------------------
 	r := src("internal/framework/runnables/runnables.go")
